@@ -46,7 +46,7 @@ def run(ck, F):
     fb = senders[0]
     # the sending function with the helper module's own functions inlined: sync helpers, directly called closures and awaited
     # local async fns (their coroutine body runs in place of the poll); the restriction check stays a call (C07's anchor)
-    B = M.Body(I.Inliner(F.lib, stop=lambda p: "CheckRestrictions" in p).body(fb))
+    B = M.Body(I.Inliner(F.lib, stop=lambda p: "CheckRestrictions" in p or H.is_entry(F, p)).body(fb))
     ck.count("helper functions inlined into the sender", len(B.fact.get("inlined", [])))
     fn = fb["path"]
     short = fn.replace(H.HELPERS_MOD + "::", "")
@@ -375,6 +375,6 @@ def _await_aware_cont(B, bb, t):
         for o in M.trace(B, t2["args"][0], H.FLOW_IDENTITY):
             if o.kind == "call" and o.bb == bb:
                 cont, brk = M.try_arms(B, bb2, t2)
-                if M._try_propagates(B, bb2, t2):
-                    return cont
+                if cont is not None and M._try_propagates(B, bb2, t2):
+                    return cont     # (a copy of the `?` specialised to the failing path has no continue arm: not that one)
     return None
